@@ -45,7 +45,7 @@ def register(reg, prog):
         calls = [e for e in s.log if e[0] == 'call']
         return [('callback-exactly-once', z3.BoolVal(len(calls) == 1))]
 
-    reg.contract(RW + '.strike_out', params={'number': INT}, properties=P,
+    reg.contract(RW + '.strike_out', params={'number': INT}, properties=P, modifies=['self._index', 'self._bitfield'],
                  requires=['window_wf(self)', 'number >= 0'],
                  raises={'ValueError': 'old(was_seen(self, number))'}, only_raises=True,
                  raises_post={'ValueError': {'state-unchanged': 'self._index == old(self._index) and forall(m, was_seen(self, m) == old(was_seen(self, m)))'}},
@@ -58,9 +58,9 @@ def register(reg, prog):
                  at_exit=cb_once,
                  canaries={'window-never-moves': 'self._index == old(self._index)'})
 
-    reg.contract(RW + '.initialize_empty', properties=P, requires=['self._size > 0'],
+    reg.contract(RW + '.initialize_empty', properties=P, requires=['self._size > 0'], modifies=['self._index', 'self._bitfield'],
                  ensures={'wf': 'window_wf(self)', 'nothing-seen': 'forall(m, implies(m >= 0, not was_seen(self, m)))'})
-    reg.contract(RW + '.initialize_from_freshlyseen', params={'seen': INT}, properties=P,
+    reg.contract(RW + '.initialize_from_freshlyseen', params={'seen': INT}, properties=P, modifies=['self._index', 'self._bitfield'],
                  requires=['self._size > 0', 'seen >= 0'],
                  ensures={'wf': 'window_wf(self)',
                           'all-up-to-seen': 'forall(m, was_seen(self, m) == (m <= seen))'})
